@@ -6,7 +6,7 @@ TRUSTED_BASE = [
     "Lean 4.33.0 kernel; axioms allowed: propext, Classical.choice, Quot.sound (audited per theorem by #print axioms)",
     "no sorry/admit/native_decide/bv_decide/implemented_by/unsafe/own axioms (grep on every run)",
     "harness translate (Go, go/ast): /repo -> lean/RosedVerif/Gen/*.lean, validated by execution against the real predicates",
-    "harness/gofn.go (typed Go -> Lean translator for 53 function bodies, Gen/Code.lean) and Model/GoPrims.lean (one-line map Go primitive -> model primitive, loop combinators): trusted; each generated definition is PROVED equal to the hand model (Model/GenEq/*), unbounded Int instead of 64-bit wrap-around, value-level (no aliasing)",
+    "harness/gofn.go (typed Go -> Lean translator for 65 function bodies: every public operation of package rosed, internal/manip, internal/tb, Gen/Code.lean) and Model/GoPrims.lean (one-line map Go primitive -> model primitive, loop combinators): trusted; each generated definition is PROVED equal to the hand model (Model/GenEq/*), unbounded Int instead of 64-bit wrap-around, value-level (no aliasing)",
     "harness/goheap.go (pointer-level Go -> Lean translator for internal/gem, Gen/GemCode.lean) and Heap/GoHeapPrims.lean (heap monad, cell load/store/alloc, loop combinators): trusted; each generated definition is PROVED equal to the layer-H function (Model/GenEq/Gem*.lean); slices are values (no backing-array aliasing), element writes through a cell leave no event, allocations that are dead from birth are not modelled",
     "hand-written Lean model of the Go code (lean/RosedVerif/Model, Gem/Rules.lean), tied by the correspondence check; behaviour no generated case exercises is not covered",
     "compiled driver (Lean compiler + C toolchain) computes what the kernel-checked definitions denote",
